@@ -144,6 +144,8 @@ func (i *interpreter) jsonEmpty(t types.Type, v value) bool {
 	return false
 }
 
+func fr0(i *interpreter) *frame { return &frame{i: i} }
+
 func (i *interpreter) jsonTree(t types.Type, v value) *jnode {
 	if isNamed(t, "time", "Time") {
 		ns := timeNs(v)
@@ -157,9 +159,28 @@ func (i *interpreter) jsonTree(t types.Type, v value) *jnode {
 		}
 		return &jnode{kind: 's', v: &Sym{sort: SStr, e: "(TimeText " + tInt(ns) + ")"}, tns: ns}
 	}
-	if _, isPtr := types.Unalias(t).Underlying().(*types.Pointer); !isPtr {
-		if _, isIface := types.Unalias(t).Underlying().(*types.Interface); !isIface && i.hasMethod(t, "MarshalJSON") {
-			unsup("encoding/json: custom MarshalJSON on %s", t)
+	if _, isIface := types.Unalias(t).Underlying().(*types.Interface); !isIface {
+		// a custom marshaller is run (interpreted); its output must itself come
+		// from json.Marshal (or be concrete) so that its document tree is known
+		ms := i.prog.MethodSets.MethodSet(t)
+		for k := 0; k < ms.Len(); k++ {
+			if sel := ms.At(k); sel.Obj().Name() == "MarshalJSON" {
+				if pv, isPtr := v.(*value); isPtr && pv == nil {
+					break // nil pointer: encoded as null below
+				}
+				res := call(i, fr0(i), 0, i.prog.MethodValue(sel), []value{v}).(tuple)
+				if e := res[1].(iface); e.t != nil {
+					unsup("encoding/json: MarshalJSON returned an error")
+				}
+				root, ok := i.jsonDocOf(i.strArg(res[0]))
+				if !ok {
+					unsup("encoding/json: MarshalJSON returned invalid JSON")
+				}
+				return root
+			}
+		}
+		if _, isPtr := types.Unalias(t).Underlying().(*types.Pointer); !isPtr && i.hasMethod(t, "MarshalJSON") {
+			unsup("encoding/json: MarshalJSON with pointer receiver on a non-addressable %s", t)
 		}
 	}
 	switch u := types.Unalias(t).Underlying().(type) {
@@ -869,5 +890,13 @@ func init() {
 		t := fr.i.namedType("context", "valueCtx")
 		cell := value(structure{a[0], a[1], a[2]})
 		return iface{t: types.NewPointer(t), v: &cell}
+	}
+}
+
+func init() {
+	// FICLONE: the modelled file system has no reflink support (the ioctl
+	// fails with an error and callers fall back to copying)
+	intrinsics["golang.org/x/sys/unix.IoctlFileClone"] = func(fr *frame, a []value) value {
+		return fr.i.newError("operation not supported")
 	}
 }
